@@ -1,0 +1,10 @@
+//go:build verif
+
+// Contracts for the deductive verifier under /verif (comment-only; never compiled into oxy).
+package utils
+
+//@ iface github.com/vulcand/oxy/v2/utils.SourceExtractor.Extract
+//@   params self req
+//@   modifies everything
+//@   maypanic
+//@   ensures amount_positive: result2 == nil ==> result1 >= 1
